@@ -1,4 +1,5 @@
 import sys
+from itertools import chain
 
 from xsdata.codegen.mixins import RelativeHandlerInterface
 from xsdata.codegen.models import Attr, Class, get_slug
@@ -81,7 +82,13 @@ class ValidateAttributesOverrides(RelativeHandlerInterface):
                 if cls.overrides(attr, base_attr):
                     cls.validate_override(target, attr, base_attr)
                 else:
-                    cls.resolve_conflict(attr, base_attr)
+                    change = cls.resolve_conflict(attr, base_attr)
+                    reserved = {
+                        x.slug
+                        for x in chain(target.attrs, *base_attrs_map.values())
+                        if x is not change
+                    }
+                    change.name = ClassUtils.unique_name(change.name, reserved)
             elif attr.is_prohibited:
                 cls.remove_attribute(target, attr)
 
@@ -188,14 +195,17 @@ class ValidateAttributesOverrides(RelativeHandlerInterface):
         ClassUtils.clean_inner_classes(target)
 
     @classmethod
-    def resolve_conflict(cls, child_attr: Attr, parent_attr: Attr):
+    def resolve_conflict(cls, child_attr: Attr, parent_attr: Attr) -> Attr:
         """Rename the child or parent attr.
 
         Args:
             child_attr: The child attr instance
             parent_attr: The  parent attr instance
+
+        Returns:
+            The renamed attr instance
         """
-        ClassUtils.rename_attribute_by_preference(child_attr, parent_attr)
+        return ClassUtils.rename_attribute_by_preference(child_attr, parent_attr)
 
 
 def _bool_eq(a: bool | None, b: bool | None) -> bool:
